@@ -234,6 +234,33 @@ fn pick_ending(rng: &Rng) -> Ending {
 /// FASTA input of any kind. Returns (bytes, class label)
 pub fn fasta_any(rng: &Rng, max_recs: usize, max_noise: usize) -> (Vec<u8>, &'static str) {
     match rng.below(20) {
+        0 if rng.chance(1, 6) => {
+            // records of 20-80 sequence lines whose line *starts* are equally spaced although the
+            // lines differ: LF and CRLF terminators mixed (content one byte shorter before CRLF),
+            // and now and then a line whose content ends in a CR of its own
+            let mut v = vec![];
+            for i in 0..rng.range(1, 3) {
+                v.extend_from_slice(format!(">w{} eq\n", i).as_bytes());
+                let w = rng.range(3, 12);
+                for _ in 0..rng.range(20, 80) {
+                    match rng.below(5) {
+                        0 | 1 => {
+                            v.extend((0..w - 2).map(|_| *rng.pick(b"ACGT")));
+                            v.extend_from_slice(b"\r\n");
+                        }
+                        2 if rng.chance(1, 4) => {
+                            v.extend((0..w - 3).map(|_| *rng.pick(b"ACGT")));
+                            v.extend_from_slice(b"\r\r\n");
+                        }
+                        _ => {
+                            v.extend((0..w - 1).map(|_| *rng.pick(b"ACGT")));
+                            v.push(b'\n');
+                        }
+                    }
+                }
+            }
+            (v, "equally_spaced_lines")
+        }
         0..=10 => {
             let a = gen_afasta(rng, max_recs, rng.chance(1, 3));
             let e = pick_ending(rng);
@@ -385,6 +412,43 @@ pub fn fastq_defect(rng: &Rng, a: &AFastq, e: Ending, at: usize) -> (Vec<u8>, &'
     (v, label)
 }
 
+/// 0..3 valid FASTQ records, then a group in which one of the four lines is 4-9 KiB long and the input
+/// ends inside it (see `fastq_any`)
+pub fn long_line_truncated(rng: &Rng) -> Vec<u8> {
+    // 0..3 valid records, then a group in which one of the four lines is 4-9 KiB long and the
+    // input ends inside it (optionally with a wrong first byte on that line): parsers
+    // that look at a line before it is complete have to say the same at every capacity
+    let a = gen_afastq(rng, 3, false);
+    let mut v = if rng.chance(1, 3) { vec![] } else { render_fastq(rng, &a, Ending::Lf, true, 0) };
+    let k = rng.below(4);
+    let long = rng.range(4200, 9000);
+    let bad_first = rng.chance(1, 2);
+    let fill = |v: &mut Vec<u8>, n: usize, c: u8| v.extend(std::iter::repeat(c).take(n));
+    // line 1
+    v.push(if k == 0 && bad_first { *rng.pick(b"X\0>;") } else { b'@' });
+    if k == 0 {
+        fill(&mut v, long, *rng.pick(b"a\0I "));
+        return v;
+    }
+    v.extend_from_slice(b"id2 x\n");
+    // line 2
+    if k == 1 {
+        fill(&mut v, long, b'A');
+        return v;
+    }
+    v.extend_from_slice(b"ACGT\n");
+    // line 3
+    v.push(if k == 2 && bad_first { *rng.pick(b"I-@A") } else { b'+' });
+    if k == 2 {
+        fill(&mut v, long, *rng.pick(b"Iid2 "));
+        return v;
+    }
+    v.push(b'\n');
+    // line 4
+    fill(&mut v, long, b'I');
+    v
+}
+
 pub fn fastq_any(rng: &Rng, max_recs: usize, max_noise: usize) -> (Vec<u8>, &'static str) {
     match rng.below(20) {
         0..=7 => {
@@ -402,10 +466,13 @@ pub fn fastq_any(rng: &Rng, max_recs: usize, max_noise: usize) -> (Vec<u8>, &'st
         }
         13..=14 => (hostile(rng, max_noise), "hostile"),
         15 => {
-            if rng.chance(1, 2) {
+            if rng.chance(1, 5) {
+                (long_line_truncated(rng), "long_line_truncated")
+            } else if rng.chance(1, 2) {
                 // records of identical layout, one byte of a later record replaced by a structural byte
-                let len = rng.range(1, 8);
-                let n = rng.range(2, max_recs.max(2));
+                // (mostly tiny records; now and then lines of 1-2.6 KiB, or runs of 18-40 records)
+                let len = if rng.chance(1, 6) { rng.range(1024, 2600) } else { rng.range(1, 8) };
+                let n = if len < 100 && rng.chance(1, 5) { rng.range(18, 40) } else { rng.range(2, max_recs.max(2)) };
                 let mut v = vec![];
                 for i in 0..n {
                     v.extend_from_slice(format!("@i{}\n", i % 10).as_bytes());
@@ -716,6 +783,10 @@ pub fn rough_record_lens(input: &[u8]) -> Vec<usize> {
 }
 
 pub fn gen_cap(rng: &Rng, input: &[u8]) -> usize {
+    if input.len() > 2000 && rng.chance(1, 5) {
+        // inputs of several KiB: capacities anywhere below their length
+        return rng.range(512, input.len());
+    }
     let lens = rough_record_lens(input);
     let c = match rng.below(12) {
         0..=4 => rng.range(3, 24),
